@@ -84,3 +84,15 @@ Definition bodies_decoded (declared : list string) (content_type : string) : lis
   | [b] => [b]
   | _ => filter (fun b => is_prefix b content_type) declared
   end.
+
+(** * The tail of every strict wrapper: what the strict handler chain (the user's handler under the strict middlewares,
+      typed [interface{}]) handed back, and where it goes. *)
+Inductive chain_result := RError | RValid | RForeign | RNil.
+Inductive outcome := OErrorPath | OVisited | ONothing.
+Definition deliver (res : chain_result) : outcome :=
+  match res with RError => OErrorPath | RValid => OVisited | RForeign => OErrorPath | RNil => ONothing end.
+(** a wrapper whose last branch was lost: whatever is not a valid response object falls through *)
+Definition deliver_falling_through (res : chain_result) : outcome :=
+  match res with RError => OErrorPath | RValid => OVisited | _ => ONothing end.
+Definition outcome_eqb (a b : outcome) : bool :=
+  match a, b with OErrorPath, OErrorPath | OVisited, OVisited | ONothing, ONothing => true | _, _ => false end.
